@@ -649,7 +649,7 @@ def handleA (holds ops : String) : String :=
   let compileOp (ws : List String) : Option (List Op) :=
     match ws with
     | ["ps", t, p] => do let t ← t.toNat?; let p ← p.toNat?; pure [.set (6 * t) p]
-    | ["v", t, p] => do let t ← t.toNat?; let p ← p.toNat?; pure [.setEarly (6 * t + 1) p]
+    | ["v", t, p] => do let t ← t.toNat?; let p ← p.toNat?; pure [.set (6 * t + 1) p]
     | ["dv", t, p] => do let t ← t.toNat?; let p ← p.toNat?; pure [.set (6 * t + 2) p]
     | ["h", t, p] => do let t ← t.toNat?; let p ← p.toNat?; pure [.set (6 * t + 5) p]
     | ["pr", t, g, s, v] => do
@@ -662,7 +662,7 @@ def handleA (holds ops : String) : String :=
       let t ← t.toNat?
       let i ← (match f with
         | "post" => some 0 | "validate" => some 1 | "dflt" => some 2 | "handler" => some 5 | _ => none)
-      pure [.reset (6 * t + i) (f == "validate")]
+      pure [.reset (6 * t + i)]
     | ["drop", t] => do
       let t ← t.toNat?
       -- trait_clear: default_value, py_validate, py_post_setattr, delegate_name, delegate_prefix, handler
